@@ -88,3 +88,228 @@ def is_trimmed(c):
 def extra_checks(res, tier, seed, known, log):
     from pyvc import runner
     runner.cli_grid(res, "C11", tier, seed, known, quick=40, thorough=400)
+
+
+# ------------------------------------------------------------------------------ the step list built by the command line
+from pyvc.api import GListT, SeqT as _SeqT   # noqa
+from .c10 import abstract_ctor, _py, veq     # noqa
+
+STEP_CLASSES = ["SingleEndFilter", "PairedEndFilter", "RestFileWriter", "InfoFileWriter", "WildcardFileWriter", "PairedSingleEndStep",
+                "SingleEndSink", "PairedEndSink", "Demultiplexer", "PairedDemultiplexer", "CombinatorialDemultiplexer",
+                "TooShort", "TooLong", "TooManyN", "TooManyExpectedErrors", "TooHighAverageErrorRate", "CasavaFiltered",
+                "IsTrimmed", "IsUntrimmed"]
+PRED_RANK = {"TooShort": 1, "TooLong": 2, "TooManyN": 3, "TooManyExpectedErrors": 4, "TooHighAverageErrorRate": 5,
+             "CasavaFiltered": 6, "IsTrimmed": 7, "IsUntrimmed": 7}
+SINKS = ("SingleEndSink", "PairedEndSink", "Demultiplexer", "PairedDemultiplexer", "CombinatorialDemultiplexer")
+PARSE_LEN = [z3.Function(f"parse_lengths.{i}", AII, I, I) for i in range(2)]
+PARSE_LEN_NONE = [z3.Function(f"parse_lengths.{i}.none", AII, I, B) for i in range(2)]
+PARSE_LEN_TWO = z3.Function("parse_lengths.two", AII, I, B)
+
+
+def _install_steps(world):
+    for cls in STEP_CLASSES:
+        world.ctor_handlers.setdefault(cls, abstract_ctor(cls))
+
+    def open_any(kind):
+        def h(ex, st, of, args, kwargs, node, spec):
+            f = {"__id__": fresh("id.writer", I), "kind": PyConst(kind)}
+            for i_, a_ in enumerate(args):
+                f[f"a{i_}"] = a_
+            for k_, v_ in kwargs.items():
+                f["kw_" + k_] = v_
+            return ObjV("Writer", f)
+        return h
+    world.handlers[("OutputFiles", "open_text")] = open_any("text")
+    world.handlers[("OutputFiles", "open_record_writer")] = open_any("record")
+    world.handlers[("OutputFiles", "open_stdout_record_writer")] = open_any("stdout")
+    world.handlers[("FileFormatLike", "has_qualities")] = lambda ex, st, o, a, k, n, s: o.fields["qualities"]
+
+    def parse_lengths(ex, st, args, kwargs, node, spec):
+        v = args[0]
+        if isinstance(v, Opt):
+            v = ex.need_not_none(v, st, node, "parse_lengths")
+        s = as_str(v)
+        ex.cx.pending.append((fresh("parse_lengths.raises", B), "CommandLineError"))
+        items = []
+        for i_ in range(2):
+            items.append((z3.BoolVal(True) if i_ == 0 else PARSE_LEN_TWO(s.arr, s.n),
+                          Opt(PARSE_LEN_NONE[i_](s.arr, s.n), PARSE_LEN[i_](s.arr, s.n))))
+        return ListV(items)
+    world.builtins["parse_lengths"] = parse_lengths
+
+
+_c11_install_prev = globals().get("install")
+
+
+def install(world):
+    if _c11_install_prev:
+        _c11_install_prev(world)
+    _install_steps(world)
+
+
+def possible_classes(obj):
+    """[(condition, class name)] an object merged from constructors of different classes can have."""
+    from pyvc import verify
+    w = verify.world()
+    tag = obj.fields.get("__cls__")
+    if tag is None:
+        return [(z3.BoolVal(True), obj.cls)]
+    tags = set()
+    stack = [tag]
+    while stack:
+        t = stack.pop()
+        if z3.is_int_value(t):
+            tags.add(t.as_long())
+        elif z3.is_app(t) and t.decl().kind() == z3.Z3_OP_ITE:
+            stack += [t.arg(1), t.arg(2)]
+    return [(tag == t, w.cls_by_tag(t)) for t in sorted(tags)]
+
+
+def step_cls(item):
+    it = item.val if isinstance(item, Opt) else item
+    return [c_ for _, c_ in possible_classes(it)]
+
+
+def _pred_of(it):
+    for k_ in ("a0", "a1"):
+        p = it.fields.get(k_)
+        p = p.val if isinstance(p, Opt) else p
+        if isinstance(p, ObjV):
+            return p
+    return None
+
+
+def step_rank(item):
+    it = item.val if isinstance(item, Opt) else item
+    cs = set(step_cls(item))
+    if cs <= {"RestFileWriter", "InfoFileWriter", "WildcardFileWriter", "PairedSingleEndStep"}:
+        return 0
+    if cs <= set(SINKS):
+        return 8
+    if cs <= {"SingleEndFilter", "PairedEndFilter"}:
+        p = _pred_of(it)
+        return PRED_RANK.get(p.cls) if p is not None else None
+    return None
+
+
+def expand(steps):
+    """Items of the step list with alternatives (objects of different classes merged at a join) made explicit."""
+    out = []
+    for g, it in steps.items:
+        if isinstance(it, ChoiceV):
+            for c_, v_ in it.options:
+                out.append((z3.And(g, c_), v_))
+        else:
+            out.append((g, it))
+    return out
+
+
+class _Expanded:
+    def __init__(self, steps):
+        self.items = expand(steps)
+
+
+def steps_spec(cx):
+    def steps_sorted(steps):
+        steps = _Expanded(steps)
+        its = list(steps.items)
+        conds = []
+        for i in range(len(its)):
+            for j in range(i + 1, len(its)):
+                ri, rj = step_rank(its[i][1]), step_rank(its[j][1])
+                if ri is None or rj is None:
+                    conds.append(z3.BoolVal(False))
+                elif ri > rj or (ri == rj == 8):
+                    conds.append(z3.Not(z3.And(its[i][0], its[j][0])))
+        return z3.And(*conds) if conds else z3.BoolVal(True)
+
+    def exactly_one_sink_last(steps):
+        steps = _Expanded(steps)
+        gs = [g for g, it in steps.items if step_rank(it) == 8]
+        return z3.Sum(*[z3.If(g, 1, 0) for g in gs]) == 1 if gs else z3.BoolVal(False)
+
+    def filters_of(steps, *pred_classes):
+        pred_classes = [_py(p) for p in pred_classes]
+        out = []
+        for g, it in expand(steps):
+            it_ = it.val if isinstance(it, Opt) else it
+            if set(step_cls(it_)) <= {"SingleEndFilter", "PairedEndFilter"}:
+                p = _pred_of(it_)
+                if p is not None and p.cls in pred_classes:
+                    out.append((g, it_))
+        return out
+
+    def present_filter(steps, *pred_classes):
+        fs = filters_of(steps, *pred_classes)
+        return z3.Or(*[g for g, _ in fs]) if fs else z3.BoolVal(False)
+
+    def untrimmed_pair_mode_is(steps, mode):
+        """Every (present) paired filter on IsUntrimmed uses the given pair filter mode."""
+        from pyvc.engine import str_eq
+        cs = []
+        for g, it in filters_of(steps, "IsUntrimmed"):
+            for cond, cn in possible_classes(it):
+                if cn == "PairedEndFilter":
+                    m_ = it.fields.get("kw_pair_filter_mode")
+                    cs.append(z3.Implies(z3.And(g, cond), veq_str(m_, mode)))
+        return z3.And(*cs) if cs else z3.BoolVal(True)
+
+    def veq_str(a, b):
+        from pyvc.engine import str_eq
+        if a is None or b is None:
+            return z3.BoolVal(a is None and b is None)
+        na, va = (a.none, a.val) if isinstance(a, Opt) else (z3.BoolVal(False), a)
+        nb, vb = (b.none, b.val) if isinstance(b, Opt) else (z3.BoolVal(False), b)
+        return z3.Or(z3.And(na, nb), z3.And(z3.Not(na), z3.Not(nb), str_eq(va, vb)))
+
+    def redirect_iff(steps, pred_class, cond):
+        """The filter on pred_class has a redirect writer exactly when cond holds."""
+        cs = []
+        for g, it in filters_of(steps, pred_class):
+            for ccond, cn in possible_classes(it):
+                w_ = it.fields.get("a1") if cn == "SingleEndFilter" else it.fields.get("a2")
+                has = z3.BoolVal(False) if w_ is None or not isinstance(w_, (Opt, ObjV)) else (z3.Not(w_.none) if isinstance(w_, Opt) else z3.BoolVal(True))
+                cs.append(z3.Implies(z3.And(g, ccond), has == cond))
+        return z3.And(*cs) if cs else z3.BoolVal(True)
+
+    cx.spec.update(steps_sorted=steps_sorted, exactly_one_sink_last=exactly_one_sink_last, present_filter=present_filter,
+                   untrimmed_pair_mode_is=untrimmed_pair_mode_is, redirect_iff=redirect_iff, truthy=lambda v: boolify(v))
+
+
+StepArgsT = ObjT("Namespace", rest_file=OptT(Str), info_file=OptT(Str), wildcard_file=OptT(Str), minimum_length=OptT(Str),
+                 maximum_length=OptT(Str), too_short_output=OptT(Str), too_short_paired_output=OptT(Str), too_long_output=OptT(Str),
+                 too_long_paired_output=OptT(Str), max_n=OptT(Real), max_expected_errors=OptT(Real), max_average_error_rate=OptT(Real),
+                 discard_casava=Bool, discard_trimmed=Bool, discard_untrimmed=Bool, untrimmed_output=OptT(Str),
+                 untrimmed_paired_output=OptT(Str), output=OptT(Str), paired_output=OptT(Str), pair_adapters=Bool, interleaved=Bool,
+                 fasta=Bool, pair_filter=OptT(Str))
+
+
+@contract("cli.py", "make_pipeline_from_args", props=["C11", "C05", "C04"], name="make_pipeline_from_args:steps")
+def builder_steps(c):
+    """The segment of make_pipeline_from_args that assembles the step list (from `def make_filter` to `modifiers = []`)."""
+    c.body_from = "def make_filter(predicate1, predicate2, path1, path2, pair_filter_mode=pair_filter_mode)"
+    c.body_until = "modifiers = []"
+    c.types(args=StepArgsT, paired=Bool, outfiles=ObjT("OutputFiles"), input_file_format=ObjT("FileFormatLike", qualities=Bool),
+            pair_filter_mode=OptT(Str), adapters=_SeqT(ObjT("Adapter")), adapters2=_SeqT(ObjT("Adapter")))
+    c.inline.update({"determine_demultiplex_mode"})
+    c.spec(steps_spec)
+    c.requires(pair_filter_mode_set_iff_paired="is_none(pair_filter_mode) == (not paired)",
+               single_end_has_no_R2_options="implies(not paired, len(adapters2) == 0 and is_none(args.paired_output))")
+    c.raises("CommandLineError", when=None)
+    S = "steps"
+    ONE_SIDED = "(paired and ((len(adapters) == 0) != (len(adapters2) == 0)))"
+    UNTR = "(args.discard_untrimmed or truthy(args.untrimmed_output) or truthy(args.untrimmed_paired_output))"
+    c.ensures(
+        filters_in_the_documented_order_then_one_sink=f"steps_sorted({S}) and exactly_one_sink_last({S})",
+        both_is_forced_for_untrimmed_filters_with_adapters_on_one_side_only=f"implies({ONE_SIDED} and {UNTR}, untrimmed_pair_mode_is({S}, 'both'))",
+        otherwise_the_requested_pair_filter_mode_applies=f"implies(paired and len(adapters) > 0 and len(adapters2) > 0, untrimmed_pair_mode_is({S}, pair_filter_mode))",
+        length_filters_present_iff_bounds_given=f"present_filter({S}, 'TooShort') == (not is_none(args.minimum_length)) and present_filter({S}, 'TooLong') == (not is_none(args.maximum_length))",
+        n_and_casava_filters_present_iff_requested=f"present_filter({S}, 'TooManyN') == (not is_none(args.max_n)) and present_filter({S}, 'CasavaFiltered') == args.discard_casava",
+        expected_error_filters_need_qualities=f"present_filter({S}, 'TooManyExpectedErrors') == (not is_none(args.max_expected_errors) and input_file_format.qualities) and "
+                                              f"present_filter({S}, 'TooHighAverageErrorRate') == (not is_none(args.max_average_error_rate) and input_file_format.qualities)",
+        redirect_files_attached_iff_given=f"redirect_iff({S}, 'TooShort', truthy(args.too_short_output) or truthy(args.too_short_paired_output)) and "
+                                          f"redirect_iff({S}, 'TooLong', truthy(args.too_long_output) or truthy(args.too_long_paired_output))",
+    )
+    c.mutant("steps.append(make_filter(predicate1, predicate2, path1, path2))", "steps.insert(0, make_filter(predicate1, predicate2, path1, path2))")
+    c.mutant("(not adapters2 or not adapters)", "(not adapters2)")
+    c.mutant("pair_filter_mode='both' if override_pair_filter_mode else pair_filter_mode", "pair_filter_mode=pair_filter_mode", occurrence=1)
